@@ -17,8 +17,10 @@ def ff (fixed : Bool) (cty : CTy := .ffItems) (mm : MMode := .notNone) : OptStep
 def oBool (n : Str) (mm : MMode := .notNone) : OptStep := { field := n, key := n, ty := .bool, mm := mm }
 def oInt (n : Str) (min : Option Int := none) (mm : MMode := .notNone) : OptStep :=
   { field := n, key := n, ty := .int min, mm := mm }
+/-- an integer option that is a WAMP id (session, subscription, registration) -/
+def oId (n : Str) : OptStep := { field := n, key := n, ty := .int none, idLike := true }
 def oStr (n : Str) (mm : MMode := .notNone) : OptStep := { field := n, key := n, ty := .str, mm := mm }
-def oListInt (n : Str) : OptStep := { field := n, key := n, ty := .listInt }
+def oListInt (n : Str) : OptStep := { field := n, key := n, ty := .listInt, idLike := true }
 def oListStr (n : Str) : OptStep := { field := n, key := n, ty := .listStr }
 
 def payloadCross : List Cross := [.payloadBytes, .encTypes, .encTriple]
@@ -34,7 +36,7 @@ def hello : Schema where
     oListStr cs!"authmethods", oStr cs!"authid", oStr cs!"authrole",
     { field := cs!"authextra", key := cs!"authextra", ty := .dict },
     oBool cs!"resumable",
-    { field := cs!"resume_session", key := cs!"resume-session", ty := .int none },
+    { field := cs!"resume_session", key := cs!"resume-session", ty := .int none, idLike := true },
     { field := cs!"resume_token", key := cs!"resume-token", ty := .str, absentErrIf := some cs!"resume-session" } ]
 
 def welcome : Schema where
@@ -81,7 +83,7 @@ def error : Schema where
   code := code_Error
   pos := [.intEnum cs!"request_type" errorRequestTypes, .id cs!"request", .opts, .uri cs!"error" {}]
   tail := some { payloadStrOk := false, variant := .std }
-  opts := [oInt cs!"callee", oStr cs!"callee_authid", oStr cs!"callee_authrole", ff ffFixed_Error]
+  opts := [oId cs!"callee", oStr cs!"callee_authid", oStr cs!"callee_authrole", ff ffFixed_Error]
   cross := payloadCross
 
 def publish : Schema where
@@ -124,7 +126,7 @@ def unsubscribed : Schema where
   code := code_Unsubscribed
   pos := [.id cs!"request", .opts]
   optsOptional := true
-  opts := [oInt cs!"subscription", { field := cs!"reason", key := cs!"reason", ty := .uri {} }]
+  opts := [oId cs!"subscription", { field := cs!"reason", key := cs!"reason", ty := .uri {} }]
   cross := [.zeroExcl cs!"request" cs!"subscription"]
 
 def event : Schema where
@@ -132,7 +134,7 @@ def event : Schema where
   code := code_Event
   pos := [.id cs!"subscription", .id cs!"publication", .opts]
   tail := some { payloadStrOk := false, variant := .std }
-  opts := [oInt cs!"publisher", oStr cs!"publisher_authid", oStr cs!"publisher_authrole", oStr cs!"topic",
+  opts := [oId cs!"publisher", oStr cs!"publisher_authid", oStr cs!"publisher_authrole", oStr cs!"topic",
            oBool cs!"retained", oStr cs!"transaction_hash", oBool cs!"x_acknowledged_delivery", ff ffFixed_Event]
   cross := payloadCross
 
@@ -146,7 +148,7 @@ def call : Schema where
   code := code_Call
   pos := [.id cs!"request", .opts, .uri cs!"procedure" {}]
   tail := some { payloadStrOk := true, variant := .std }
-  opts := [oInt cs!"timeout" (some 0), oBool cs!"receive_progress", oStr cs!"transaction_hash", oInt cs!"caller",
+  opts := [oInt cs!"timeout" (some 0), oBool cs!"receive_progress", oStr cs!"transaction_hash", oId cs!"caller",
            oStr cs!"caller_authid", oStr cs!"caller_authrole", ff ffFixed_Call]
   cross := payloadCross
 
@@ -162,7 +164,7 @@ def result : Schema where
   code := code_Result
   pos := [.id cs!"request", .opts]
   tail := some { payloadStrOk := true, variant := .std }
-  opts := [oBool cs!"progress", oInt cs!"callee", oStr cs!"callee_authid", oStr cs!"callee_authrole", ff ffFixed_Result]
+  opts := [oBool cs!"progress", oId cs!"callee", oStr cs!"callee_authid", oStr cs!"callee_authrole", ff ffFixed_Result]
   cross := payloadCross
 
 def register : Schema where
@@ -196,7 +198,7 @@ def unregistered : Schema where
   code := code_Unregistered
   pos := [.id cs!"request", .opts]
   optsOptional := true
-  opts := [oInt cs!"registration", { field := cs!"reason", key := cs!"reason", ty := .uri {} }]
+  opts := [oId cs!"registration", { field := cs!"reason", key := cs!"reason", ty := .uri {} }]
   cross := [.zeroExcl cs!"request" cs!"registration"]
 
 def invocation : Schema where
@@ -204,7 +206,7 @@ def invocation : Schema where
   code := code_Invocation
   pos := [.id cs!"request", .id cs!"registration", .opts]
   tail := some { payloadStrOk := false, variant := .std }
-  opts := [oInt cs!"timeout" (some 0), oBool cs!"receive_progress", oInt cs!"caller", oStr cs!"caller_authid",
+  opts := [oInt cs!"timeout" (some 0), oBool cs!"receive_progress", oId cs!"caller", oStr cs!"caller_authid",
            oStr cs!"caller_authrole", oStr cs!"procedure", oStr cs!"transaction_hash", ff ffFixed_Invocation]
   cross := payloadCross
 
@@ -221,7 +223,7 @@ def yield : Schema where
   code := code_Yield
   pos := [.id cs!"request", .opts]
   tail := some { payloadStrOk := false, variant := .std }
-  opts := [oBool cs!"progress", oInt cs!"callee", oStr cs!"callee_authid", oStr cs!"callee_authrole", ff ffFixed_Yield]
+  opts := [oBool cs!"progress", oId cs!"callee", oStr cs!"callee_authid", oStr cs!"callee_authrole", ff ffFixed_Yield]
   cross := payloadCross
 
 end Schemas
